@@ -207,6 +207,8 @@ type RigS struct {
 	bgWriteStep        map[string]int  // task -> step of the last write of its record made while no request on it was in flight
 	loopFailed         map[int]bool    // downstreams on which a task was paused by a failure met in one of the loops all tasks of the downstream share (event loop, per-channel write loop)
 	recovered          map[string]bool // tasks the recovery phase resumed (the request was answered 200)
+	connFailSteps      []int           // steps at which a connection check of the message queue was refused (this incarnation)
+	leakedAtPause      map[string]bool // "target|collection|shard" of streams found registered for a Paused task when the recovery phase began
 }
 
 func (r *RigS) gate(kind string) Gate {
@@ -288,6 +290,9 @@ func (r *RigS) mqConnErr(pch string) error {
 	for _, f := range r.sc.ConnFaults {
 		if f == n {
 			r.s.Stat("fault:mq_conn_err")
+			r.mu.Lock()
+			r.connFailSteps = append(r.connFailSteps, r.s.Step)
+			r.mu.Unlock()
 			r.s.Side("mq connection check of %s -> injected error", pch)
 			return fmt.Errorf("sim: connection refused by the message queue (%s)", pch)
 		}
